@@ -36,6 +36,36 @@ def explore(cfg, build, emit=True, timeout=1200, workers=8):
     return states, trans, edges, out
 
 
+def explore_sim(cfg, build, num=200, depth=300, timeout=1800):
+    """Random behaviours of the instance (TLC -simulate), for instances too large to replay transition by transition:
+    returns (edges, walks) -- the transitions in the order TLC took them, cut into walks from the initial state."""
+    wd = workdir('mcsim')
+    cfgp = os.path.join(wd, 'mc.cfg')
+    open(cfgp, 'w').write(cfg.replace('@BUILD@', build).replace('@EMIT@', 'TRUE'))
+    rc, out = mk.tlc('MC_Registry.tla', cfgp, SPEC, workers=1, timeout=timeout, heap='4g', extra=['-simulate', 'num=%d' % num, '-depth', str(depth)])
+    shutil.rmtree(wd, ignore_errors=True)
+    if 'Error:' in out and 'violated' in out:
+        raise InfraError('bounded model (simulation) reports a violation:\n' + out[-3000:])
+    edges, walks, cur = [], [], None
+    for line in out.splitlines():
+        if line.startswith('<<"EDGE", '):
+            e = json.loads(json.loads(line[len('<<"EDGE", '):-2]))
+            f, t = canon(e['from']), canon(e['to'])
+            e['_f'], e['_t'] = f, t
+            if cur is None or f != cur:           # a new behaviour starts (or TLC backed up): start a new walk if it starts in the initial state
+                fresh = e['from']['status'] == 'run' and all(len(v) == 0 for v in e['from']['reg'].values())
+                if not fresh:
+                    cur = None
+                    continue
+                walks.append([])
+            edges.append(e); walks[-1].append(len(edges) - 1)
+            cur = t if e['to']['status'] == 'run' else None
+    walks = [w for w in walks if w]
+    if not walks:
+        raise InfraError('simulation produced no behaviour:\n' + out[-1500:])
+    return edges, walks
+
+
 def action_counts(edges):
     """per action name: number of distinct transitions, split by how the call ended (vacuity evidence)"""
     c = collections.Counter()
@@ -60,7 +90,7 @@ def canon(x):
     return json.dumps(x, sort_keys=True)
 
 
-def cover_walks(edges, max_len=400):
+def cover_walks(edges, max_len=400, sampled=False):
     """Greedy postman: returns (walks, n) -- walks are lists of edge indices that together cover all
     n distinct transitions (from-state, action, outcome)."""
     out_u = collections.defaultdict(list)
@@ -120,9 +150,11 @@ def cover_walks(edges, max_len=400):
             walk += path
             cur = goal
         if not walk:
+            if sampled:      # a SAMPLE of the transitions: what cannot be reached through sampled transitions is left out
+                break
             raise InfraError('uncovered transitions unreachable from the initial state')
         walks.append(walk)
-    return walks, n_uniq
+    return walks, n_uniq - (todo if sampled else 0)
 
 
 # ------------------------------------------------------------------------------------------------
